@@ -279,6 +279,63 @@ def run(ctx):
     r8 = ctx.rule("C03.R8", "a lower-layer send that fails with anything but EAGAIN has made the connection terminal (the framing layer keeps the frame it had buffered)")
     check_terminal_failures(P, r8, tables)
 
+    # ------------------------------------------------------------------ R9
+    r9 = ctx.rule("C03.R9", "a receive that asks the layer below for input also attempts to flush the accepted frame (xcm.h: buffered data is re-attempted by finish, send and receive)")
+    check_receive_flushes(P, r9, tables)
+
+
+def check_receive_flushes(P, rule, tables):
+    """xcm_send() may answer 0 with the frame still in the library's buffer; xcm.h promises that it is re-attempted by
+    every later xcm_finish(), xcm_send() and xcm_receive().  An application that sent a request and now only calls
+    xcm_receive() on every wake-up relies on the third: a receive op of a framing transport that reads from the layer
+    below and returns (no input yet) without having attempted the flush leaves the frame where it is - the request
+    never leaves, the reply never comes, and SENDABLE keeps the descriptor ready (a busy loop).  Returns that happen
+    before any read (sticky failure, argument checks) are not concerned."""
+    n = 0
+    for t in tables:
+        if t.proto not in ("tcp", "tls"):
+            continue
+        f = t.slots["receive"]
+        flushers = {g for g in P.functions if g.file == f.file and g.static and any(True for _ in g.calls("xcm_tp_socket_send"))}
+        if not flushers:
+            raise Broken("receive-flushes: the flush helper of %s was not found" % f.name)
+        n += 1
+        rule.instance(f.qname)
+        bad = []
+        nread = [0]
+
+        class Flushes(S.SeqRule):
+            max_depth = 3
+
+            def user0(s2, fn):
+                return (False, False)       # (flush attempted, read from below attempted)
+
+            def inline(s2, fn, nid, callee):
+                return callee.static and callee.file == f.file and callee is not f and callee not in flushers
+
+            def on_call(s2, fn, st, nid, callees, exts):
+                if any(d in flushers for d in callees):
+                    return (True, st.user[1])
+                if (fn.nodes[nid].get("callee") or "") == "xcm_tp_socket_receive":
+                    nread[0] += 1
+                    return (st.user[0], True)
+                return None
+
+            def on_exit(s2, fn, st, ret_nid, ret_cls, top):
+                if top and st.user[1] and not st.user[0] and not bad:
+                    bad.append(ret_nid)
+        S.run(Flushes(P), f)
+        if nread[0] < 1:
+            raise Broken("receive-flushes: %s does not read from the layer below" % f.name)
+        if bad:
+            rule.violation("%s:reads-without-flushing" % f.name, "%s can read from the layer below and return without having attempted to flush the accepted frame: an "
+                           "application that waits for the reply with xcm_receive() alone never gets its request out" % f.name,
+                           loc=f.loc(bad[0]) if bad[0] is not None else f.file)
+        else:
+            rule.ok("%s: every path that reads from below has attempted the flush" % f.qname, "path exploration")
+    if n < 2:
+        raise Broken("receive-flushes: only %d framing receive ops found" % n)
+
 
 def check_terminal_failures(P, rule, tables):
     """tcp_send/tls_send buffer (and count) the message first and then try to write it.  A failure of that write other
